@@ -1,6 +1,7 @@
 import XMT.Drv.C01
 import XMT.Drv.C10
 import XMT.Drv.C11
+import XMT.Drv.C12
 import XMT.Drv.C13
 import XMT.Drv.C14
 import XMT.Drv.C17
@@ -12,6 +13,7 @@ def dispatch (line : String) : String :=
   | "C01" :: args => XMT.Drv.C01.handle args
   | "C10" :: args => XMT.Drv.C10.handle args
   | "C11" :: args => XMT.Drv.C11.handle args
+  | "C12" :: args => XMT.Drv.C12.handle args
   | "C13" :: args => XMT.Drv.C13.handle args
   | "C14" :: args => XMT.Drv.C14.handle args
   | "C17" :: args => XMT.Drv.C17.handle args
